@@ -123,6 +123,28 @@ def update_weights_flow():
     return obs
 
 
+def fit_groups_flow():
+    """fit of every sparse estimator: groups_ = check_groups(self.groups, X.shape[1]) is stored before training starts"""
+    from gemclus.sparse import SparseLinearModel, SparseMLPModel, SparseLinearMMD, SparseLinearMI, SparseMLPMMD
+    obs = []
+    SELF = ("var", "self")
+    for cls in (SparseLinearModel, SparseLinearMMD, SparseLinearMI, SparseMLPModel, SparseMLPMMD):
+        fn = f"{cls.__module__}.{cls.__name__}.fit"
+        it = fx.Interp(cls, inline_filter=lambda o, m: m == "fit")
+        sts = it.run_method("fit")
+        ok = bool(sts)
+        for st in sts:
+            g = [e for e in st.events if e[0] == "store" and e[1] == SELF and e[2] == "groups_"]
+            tr = [i for i, e in enumerate(st.events) if e[0] == "call" and e[2] in ("self._init_params", "self._update_weights")]
+            good = (len(g) == 1 and g[0][3][:1] == ("callres",) and g[0][3][2] == "check_groups"
+                    and g[0][3][3] == (("attr", SELF, "groups"), ("item", ("attr", ("var", "X"), "shape"), fx.C(1)))
+                    and (not tr or st.events.index(g[0]) < tr[0]))
+            ok = ok and (good or st.ended == "raise")
+        obs.append(Ob(f"{cls.__name__}.fit: groups_ = check_groups(self.groups, n_features) is stored before any parameter is initialised or updated",
+                      PROVED if ok else REFUTED, "fx-dataflow", "P", {}, fn=fn))
+    return obs
+
+
 # ------------------------------------------------------------------ B: check_groups, exhaustive over small feature sets
 def check_groups_exhaustive(dmax=4):
     from gemclus.sparse._base_sparse import check_groups
